@@ -273,6 +273,23 @@ def run(rep: Report) -> None:
     for o in r.outcomes:
         if o.kind != "return":
             continue
+        def _pred(t: str) -> str:
+            # `self._has_root_power_reference()`: a one-expression predicate of the class stands for its expression
+            try:
+                e = ast.parse(t, mode="eval").body
+            except SyntaxError:
+                return t
+            neg = isinstance(e, ast.UnaryOp) and isinstance(e.op, ast.Not)
+            c = e.operand if neg else e  # type: ignore[union-attr]
+            if isinstance(c, ast.Call) and isinstance(c.func, ast.Attribute) and ast.unparse(c.func.value) == "self" and not c.args and not c.keywords:
+                h = prog.functions.get(f"LogarithmicUnit.{c.func.attr}")
+                if h is not None:
+                    hb = [x for x in h.node.body if not (isinstance(x, ast.Expr) and isinstance(x.value, ast.Constant))]  # type: ignore[attr-defined]
+                    if len(hb) == 1 and isinstance(hb[0], ast.Return) and hb[0].value is not None:
+                        inner = ast.unparse(hb[0].value)
+                        return f"not ({inner})" if neg else inner
+            return t
+        o.path = [(_pred(t), v) for t, v in o.path]
         conds = [(t, v) for t, v in o.path if "ROOT_POWER_DIMENSIONS" in t]
         if len(conds) != 1:
             raise AnalysisError(f"power_ratio: cannot tell the membership arm of a return (path {o.path})")
